@@ -1,13 +1,22 @@
 #!/bin/bash
 # seedtest.sh <seed-dir> <prop> <tier> [only-list]
-# applies <seed-dir>/patch.diff to /repo, runs the registered check, reverts /repo.
-SD=$1; P=$2; T=${3:-quick}; ONLY=$4
-cd /repo || exit 9
-if ! git diff --quiet; then echo "/repo has uncommitted changes: refusing"; exit 9; fi
-git apply $SD/patch.diff || { echo APPLY-FAILED; exit 9; }
-cd /verif
-if [ -n "$ONLY" ]; then ./check $P --tier $T --only $ONLY --no-evidence; else ./check $P --tier $T --no-evidence; fi
+# Runs the registered check against a scratch worktree of /repo with <seed-dir>/patch.diff
+# applied, from a private copy of /verif (so /repo and /verif/.cache are untouched).
+SD=$(readlink -f $1); P=$2; T=${3:-quick}; ONLY=$4
+TAG=$(basename $SD)
+WT=/tmp/seedrun/$TAG/repo; VC=/tmp/seedrun/$TAG/verif
+rm -rf /tmp/seedrun/$TAG; mkdir -p /tmp/seedrun/$TAG
+git -C /repo worktree prune
+git -C /repo worktree add --detach -f $WT HEAD >/dev/null 2>&1 || { echo WORKTREE-FAILED; exit 9; }
+git -C $WT apply $SD/patch.diff || { echo APPLY-FAILED; git -C /repo worktree remove --force $WT; exit 9; }
+mkdir -p $VC; rsync -a --exclude .cache --exclude .git --exclude evidence --exclude replays /verif/ $VC/
+mkdir -p $VC/evidence $VC/replays
+# share the warm dependency build when there is one (copy, not link: the run mutates it)
+if [ -d /verif/.cache/kani-$P ] && [ -z "$SEED_COLD" ]; then mkdir -p $VC/.cache; cp -a /verif/.cache/kani-$P $VC/.cache/; fi
+cd $VC
+if [ -n "$ONLY" ]; then VERIF_REPO=$WT ./check $P --tier $T --only $ONLY --no-evidence; else VERIF_REPO=$WT ./check $P --tier $T --no-evidence; fi
 RC=$?
-git -C /repo checkout -- .
+mkdir -p /verif/.cache/seedruns/$TAG; cp -a $VC/replays /verif/.cache/seedruns/$TAG/ 2>/dev/null
+git -C /repo worktree remove --force $WT; rm -rf /tmp/seedrun/$TAG
 echo "SEEDTEST seed=$SD prop=$P tier=$T exit=$RC"
 exit $RC
